@@ -157,7 +157,11 @@ Fixpoint update_box (c : cfg) (old : option cfg) (size : nat)
          (s : nat) : list (option (list bool)) :=
   match box, data with
   | b :: box', d :: data' =>
-      (if key_changed c old s then
+      (* feat2filter: the range keys changed, or (repo commit 1895a86) the
+         feature has a configured range but no box filter yet, e.g. a
+         temporary feature that appeared after the range was set *)
+      (if key_changed c old s || match b with None => true | Some _ => false end
+       then
          match d, nth s (c_rng c) None with
          | Some dcol, Some r => Some (box_of size r dcol)
          | _, _ => b            (* feature not in the dataset: ignored *)
